@@ -12,8 +12,10 @@ Driver mode c19: libdialect graph decompositions (harness/c19.cpp).
 import Driver.Proto
 import AdaptaVerif.Model.Peel
 import AdaptaVerif.Check.GraphParts
+import AdaptaVerif.Model.TreeLayout
 namespace Driver.C19
 open Driver AdaptaVerif.Num AdaptaVerif.Model.Peel AdaptaVerif.Check.GraphParts
+open AdaptaVerif.Model
 
 def natsOf (ts : Array String) (start : Nat := 0) : List Nat :=
   ((ts.extract start ts.size).toList).map nat!
@@ -123,16 +125,99 @@ def checkPeel (c : Case) : CaseResult := Id.run do
     return { verdict := .ok, nontrivial := !m.stems.isEmpty, stats := stats }
   | _, _ => return { verdict := .diverge "model ran out of fuel", stats := stats }
 
-/-- directly built tree + Tree::symmetricLayout: input must be a tree, one box per node, no two
-    boxes overlap -/
+/-! ### exact tie of `Tree::symmetricLayout` with `Model/TreeLayout.lean` -/
+
+def dirOf : String → TreeLayout.Dir
+  | "E" => .east
+  | "S" => .south
+  | "W" => .west
+  | _ => .north
+
+/-- the rooted ordered tree as the library sees it (`kids` lines = `Node::getChildren()` order);
+    `fuel` = number of nodes + 1 (every `cons` consumes one unit on every path) -/
+def buildForest (kidsOf : Nat → List Nat) (szOf : Nat → Rat × Rat) : Nat → List Nat → TreeLayout.Forest
+  | 0, _ => .nil
+  | _, [] => .nil
+  | fuel + 1, i :: is =>
+    .cons i (szOf i).1 (szOf i).2 (buildForest kidsOf szOf fuel (kidsOf i)) (buildForest kidsOf szOf fuel is)
+
+structure LayoutIn where
+  cfg : TreeLayout.Cfg
+  convex : Bool
+  root : Nat
+  w : Rat
+  h : Rat
+  kids : TreeLayout.Forest
+  sizes : List (Nat × (Rat × Rat))
+
+def readLayoutIn (c : Case) (n : Nat) : Option LayoutIn := do
+  let l ← c.get1 "layout"
+  let nodeSep ← num? l[2]!
+  let rankSep ← num? l[3]!
+  let root := nat! ((← c.get1 "root")[0]!)
+  let sizes ← (c.get "sz").toList.mapM (fun a => do
+    let w ← num? a[1]!; let h ← num? a[2]!; pure (nat! a[0]!, (w, h)))
+  let kidsL := (c.get "kids").toList.map (fun a => (nat! a[0]!, natsOf a 1))
+  let szOf := fun i => (sizes.lookup i).getD (0, 0)
+  let kidsOf := fun i => (kidsL.lookup i).getD []
+  let (w, h) ← sizes.lookup root
+  pure { cfg := ⟨dirOf l[1]!, nodeSep, rankSep⟩, convex := l[4]! == "1", root := root, w := w, h := h,
+         kids := buildForest kidsOf szOf (n + 1) (kidsOf root), sizes := sizes }
+
+/-- hypothesis of `symmetricLayout_no_overlap`: sizes ≥ 0, extent along the growth direction ≤ rankSep,
+    nodeSep ≥ 0 -/
+def layoutHyp (i : LayoutIn) : Bool :=
+  decide (0 ≤ i.cfg.nodeSep) && i.sizes.all (fun (_, (w, h)) =>
+    decide (0 ≤ w) && decide (0 ≤ h) && decide ((if i.cfg.dir.isVertical then h else w) ≤ i.cfg.rankSep))
+
+/-- compare every centre, the per-rank bounds, m_lb/m_ub and the symmetry flag with the model: `none` = equal -/
+def tieLayout (c : Case) (i : LayoutIn) (n : Nat) : Option String := Id.run do
+  let lay := TreeLayout.symmetricLayout i.cfg i.convex i.root i.w i.h i.kids
+  let mnodes := lay.nodes
+  if mnodes.length != n then return some s!"model laid out {mnodes.length} nodes, tree has {n}"
+  let ctr := (c.get "ctr").toList.map (fun a => (nat! a[0]!, (num? a[1]!, num? a[2]!)))
+  if ctr.length != n then return some s!"{ctr.length} ctr lines for {n} nodes"
+  for m in mnodes do
+    match ctr.lookup m.id with
+    | some (some x, some y) =>
+      if x != m.c.x || y != m.c.y then
+        return some s!"centre of node {m.id}: impl ({x}, {y}) model ({m.c.x}, {m.c.y})"
+    | _ => return some s!"node {m.id}: no finite centre printed"
+  let rb := (c.get "rb").toList.map (fun a => (num? a[1]!, num? a[2]!))
+  if rb.length != lay.levels.length then
+    return some s!"m_depth: impl {rb.length} model {lay.levels.length}"
+  let mut r := 0
+  for (b, lv) in rb.zip lay.levels do
+    if b.1 != some lv.lo || b.2 != some lv.hi then
+      return some s!"m_boundsByRank[{r}]: impl ({b.1}, {b.2}) model ({lv.lo}, {lv.hi})"
+    r := r + 1
+  match c.get1 "lbub" with
+  | some a =>
+    if num? a[0]! != some lay.lb || num? a[1]! != some lay.ub then
+      return some s!"m_lb/m_ub: impl ({num? a[0]!}, {num? a[1]!}) model ({lay.lb}, {lay.ub})"
+  | none => return some "no lbub line"
+  let symImpl := ((c.get1 "laid").map (fun a => a[1]! == "1")).getD false
+  let symModel := TreeLayout.isSymmetrical i.kids
+  if symImpl != symModel then return some s!"isSymmetrical: impl {symImpl} model {symModel}"
+  return none
+
+/-- directly built tree + Tree::symmetricLayout: input must be a tree, one box per node; no two boxes
+    overlap whenever the hypothesis of `symmetricLayout_no_overlap` holds (SPECFAIL); with an `exact` line
+    every centre / rank bound / flag equals the model's (DIVERGE) -/
 def checkLayout (c : Case) : CaseResult := Id.run do
   let (ns, es) := inputGraph c
-  let stats : List (String × Nat) := [("layoutDirect.nodes", ns.length)]
+  let mut stats : List (String × Nat) := [("layoutDirect.nodes", ns.length)]
   if !simpleB ns es || !isTree ns es then
-    return { verdict := .diverge "harness produced a layout input that is not a tree", stats := stats }
+    if !(ns.length == 1 && es.isEmpty) then
+      return { verdict := .diverge "harness produced a layout input that is not a tree", stats := stats }
   let tsize := nat! (((c.get1 "tsize").getD #["0"])[0]!)
   if tsize != ns.length then
     return { verdict := .diverge s!"Tree::size {tsize} for a tree of {ns.length} nodes", stats := stats }
+  let exact := (c.get1 "exact").isSome
+  let inp := if exact then readLayoutIn c ns.length else none
+  if exact && inp.isNone then
+    return { verdict := .diverge "layout input lines (layout/root/sz/kids) malformed", stats := stats }
+  let hyp := match inp with | some i => layoutHyp i | none => true
   match parseBoxes c 0 with
   | none => return { verdict := .specfail "symmetricLayout: non-finite coordinate", stats := stats }
   | some bs =>
@@ -140,9 +225,32 @@ def checkLayout (c : Case) : CaseResult := Id.run do
       return { verdict := .diverge s!"layout: {bs.length} boxes for {ns.length} nodes", stats := stats }
     if bs.any (fun b => !(b.x < b.X && b.y < b.Y)) then
       return { verdict := .specfail "symmetricLayout: degenerate box", stats := stats }
-    match firstOverlap bs with
-    | some (a, b) => return { verdict := .specfail s!"symmetricLayout: boxes of nodes {a} and {b} overlap (direct tree, {ns.length} nodes)", stats := stats }
+    if hyp then
+      match firstOverlap bs with
+      | some (a, b) => return { verdict := .specfail s!"symmetricLayout: boxes of nodes {a} and {b} overlap (direct tree, {ns.length} nodes)", stats := stats }
+      | none => pure ()
+    else
+      stats := ("layoutExact.hypothesisOff", 1) :: stats
+      if (firstOverlap bs).isSome then stats := ("layoutExact.hypothesisOff.overlap", 1) :: stats
+    match inp with
     | none => return { verdict := .ok, nontrivial := ns.length ≥ 5, stats := ("layoutDirect.boxes", bs.length) :: stats }
+    | some i =>
+      match tieLayout c i ns.length with
+      | some msg => return { verdict := .diverge s!"symmetricLayout exact tie: {msg}", stats := stats }
+      | none =>
+        let (perm, central) := TreeLayout.placementOf i.convex i.kids
+        let ks := TreeLayout.keys i.kids
+        -- negative side = odd positions among the non-central placements
+        let side := if central then perm.drop 1 else perm
+        let negAsym := (side.zipIdx.any (fun (ci, pos) => pos % 2 == 1 && !((ks[ci]?.map (·.sym)).getD true)))
+        stats := ("layoutExact.cases", 1) :: ("layoutExact.nodes", ns.length) :: stats
+        if central then stats := ("layoutExact.root.centralTree", 1) :: stats
+        if negAsym then stats := ("layoutExact.root.flippedAsymmetric", 1) :: stats
+        if !i.convex then stats := ("layoutExact.nonConvexOrdering", 1) :: stats
+        if i.cfg.nodeSep == 0 then stats := ("layoutExact.nodeSep0", 1) :: stats
+        if i.cfg.rankSep == 0 then stats := ("layoutExact.rankSep0", 1) :: stats
+        stats := ("layoutExact.dir." ++ (match i.cfg.dir with | .east => "E" | .south => "S" | .west => "W" | .north => "N"), 1) :: stats
+        return { verdict := .ok, nontrivial := ns.length ≥ 2, stats := ("layoutDirect.boxes", bs.length) :: stats }
 
 def readComps (c : Case) : List Comp :=
   let k := nat! (((c.get1 "ncomps").getD #["0"])[0]!)
